@@ -360,10 +360,22 @@ Definition set_fmt (t : tstate) (s : str) : res tstate :=
       end
   end.
 
+(* PPTableFormat.remove_columns / ReprStructure.remove_columns: names that match no
+   column are ignored (nothing changes); when a column was removed the detected
+   widths (reset_columns_widths) and any_lines_skipped are forgotten - they were
+   detected for the records visible with the previous set of columns *)
 Definition remove_columns (t : tstate) (names : list str) : tstate :=
-  mkT (t_fields t)
-      (filter (fun c => negb (existsb (str_eqb (c_name c)) names)) (t_cols t))
-      (t_lf t) (t_ll t) (t_skipped t).
+  let cs := filter (fun c => negb (existsb (str_eqb (c_name c)) names)) (t_cols t) in
+  if Nat.eqb (length cs) (length (t_cols t)) then t
+  else mkT (t_fields t) (map clone_col cs) (t_lf t) (t_ll t) None.
+
+(* PPTableFormat.set_limits(limits): None = leave as is; otherwise the new limits,
+   the detected widths and any_lines_skipped are forgotten *)
+Definition set_limits (t : tstate) (lim : option (option Z * option Z)) : tstate :=
+  match lim with
+  | None => t
+  | Some (lf, ll) => mkT (t_fields t) (map clone_col (t_cols t)) lf ll None
+  end.
 
 (* PPTableFormat.clone(): ReprStructure.clone() makes a NEW ReprColumn for every
    column (ReprColumn.clone: everything but the negotiated width), the record
